@@ -102,10 +102,11 @@ func Assume(c bool) {
 	}
 }
 
+// Assert records a failed assertion and continues (the engine continues under
+// the assumption that the assertion held; natively the failure is on record).
 func Assert(c bool, id string) {
 	if !c {
 		Failed = append(Failed, id)
-		panic(Stop{"assert " + id})
 	}
 }
 
